@@ -11,6 +11,7 @@ import time
 
 VERIF = os.path.dirname(os.path.dirname(os.path.abspath(__file__)))
 REPO = os.environ.get("NL_REPO", "/repo")
+MODEL_WORKERS = int(os.environ.get("NL_MODEL_WORKERS", "12"))
 BUILD = os.path.join(VERIF, "build")
 LEAN = os.path.join(VERIF, "lean")
 HARNESS_SRC = os.path.join(VERIF, "harness")
@@ -131,7 +132,8 @@ def run_server(cmd, requests, per_request_timeout=90.0, total_timeout=None, limi
     """Feed `requests` (list of lines) to a protocol server, one answer per request.  If the
     server dies or stalls on a request, that request is answered `CRASH <why>` / `TIMEOUT` and
     the rest are retried in a new process."""
-    limits = limits or _limits
+    # limits=False: the command carries its own limits (prlimit wrapper): no Python code between fork and exec
+    pre = None if limits is False else (limits or _limits)
     answers = [None] * len(requests)
     start = 0
     while start < len(requests):
@@ -141,7 +143,7 @@ def run_server(cmd, requests, per_request_timeout=90.0, total_timeout=None, limi
         budget = total_timeout or max(600.0, per_request_timeout + 0.05 * len(batch))
         try:
             p = subprocess.run(cmd, input=inp, stdout=subprocess.PIPE, stderr=subprocess.PIPE,
-                               text=True, timeout=budget, preexec_fn=limits)
+                               text=True, timeout=budget, preexec_fn=pre)
             out = p.stdout.split("\n")
             if out and out[-1] == "":
                 out.pop()
@@ -175,7 +177,7 @@ def run_server(cmd, requests, per_request_timeout=90.0, total_timeout=None, limi
 def _run_alone(cmd, request, timeout, limits=None):
     try:
         p = subprocess.run(cmd, input=request + "\n", stdout=subprocess.PIPE, stderr=subprocess.PIPE,
-                           text=True, timeout=timeout, preexec_fn=limits or _limits)
+                           text=True, timeout=timeout, preexec_fn=(None if limits is False else (limits or _limits)))
         out = p.stdout.split("\n")
         if out and out[0] != "":
             return out[0]
@@ -189,8 +191,35 @@ def impl(requests, profile="release", **kw):
 
 
 def model(requests, **kw):
+    """the Lean driver answers every request on its own (no state between lines), so large batches are split over
+    several driver processes; the answers come back in request order"""
     build_lean()
-    return run_server([DRIVER, unicode_table()], requests, limits=_limits_model, **kw)
+    cmd = [DRIVER, unicode_table()]
+    n = len(requests)
+    workers = min(MODEL_WORKERS, n // 150)
+    if workers < 2:
+        return run_server(cmd, requests, limits=_limits_model, **kw)
+    # contiguous chunks of roughly equal total request length (long programs cost more)
+    total = sum(len(r) for r in requests) + n
+    target = total / workers
+    chunks, cur, acc = [], [], 0
+    for r in requests:
+        cur.append(r)
+        acc += len(r) + 1
+        if acc >= target and len(chunks) < workers - 1:
+            chunks.append(cur)
+            cur, acc = [], 0
+    if cur:
+        chunks.append(cur)
+    from concurrent.futures import ThreadPoolExecutor
+    # worker threads start their servers through `prlimit` (same limits as `_limits_model`) instead of a preexec_fn
+    pcmd = ["prlimit", "--as=%d" % (12 << 30), "--core=0", "--stack=%d" % (2 << 30)] + cmd
+    with ThreadPoolExecutor(max_workers=len(chunks)) as ex:
+        parts = list(ex.map(lambda c: run_server(pcmd, c, limits=False, **kw), chunks))
+    out = []
+    for p_ in parts:
+        out.extend(p_)
+    return out
 
 
 # ---------------------------------------------------------------- Lean obligations
